@@ -205,101 +205,16 @@ def classify_tests(p):
 
 
 def r63_65(ctx, prog):
-    f = prog.fn('token::partial_tokens_to_tokens')
-    if f is None:
-        ctx.unrecognised('R6.5', 'partial_tokens_to_tokens', 'missing', 'not found')
-        return None
+    """R6.3 / R6.5 decided on the tokenizer table (rules/toksem.py): partial_tokens_to_tokens is interpreted on every sequence of up to
+    three operator characters and on a word followed by every relevant continuation; see check_operator_table / check_words."""
+    from rules import toksem
     try:
-        paths = iteration_paths(prog, f)
-    except (ValueError, Budget) as e:
-        ctx.unrecognised('R6.5', 'partial_tokens_to_tokens', 'shape', 'tokenizer loop not recognised: %s' % e, span=f.span)
+        toksem.check_operator_table(ctx, prog, 'R6.5')
+        toksem.check_words(ctx, prog)
+    except (ValueError, tables.TableError) as e:
+        ctx.unrecognised('R6.5', 'partial_tokens_to_tokens', 'shape', 'tokenizer not recognised: %s' % e)
         return None
-    firsts = sorted({p['first'] for p in paths if p['first']})
-    ctx.floor('R6.5', 'first_token_kinds', len(firsts), 15)
-    ctx.counters['tokenizer_paths'] = len(paths)
-    order = ['int', 'float', 'bool', 'join']
-    n63 = 0
-    bad65 = 0
-    seen_join_signs = set()
-    for p in paths:
-        if p['ret'] is not None:
-            continue
-        em = p['emitted']
-        # ---- R6.5
-        slots = sorted({s for s, _ in p['matched']})
-        flows = set()
-        if em is not None:
-            s = fmt(em)
-            for k in (1, 2):
-                if ('get($tokens, %d)' % k) in s or ('slice($tokens, %d)' % k) in s:
-                    flows.add(k)
-        used = sorted(set(slots) | flows)
-        want = 1 + (max(used) if used else 0)
-        contiguous = used == list(range(1, len(used) + 1))
-        inst = 'path[%s%s]' % (p['first'], ''.join(' %d=%s' % (s, v) for s, v in p['matched']) + (' join' if flows else ''))
-        if p['first'] == 'Literal':
-            # a word may look at what follows without consuming it (the scientific-notation guard): it consumes the two following
-            # tokens exactly when they flow into the emitted number, otherwise only itself
-            want = 3 if flows else 1
-            contiguous = True
-        if p['cutoff'] != want or not contiguous:
-            bad65 += 1
-            ctx.violation('R6.5', inst, 'consume-mismatch', 'this path consumes %s partial tokens but matched/used look-ahead slots %s (must consume exactly 1 + the look-ahead it matched)' % (p['cutoff'], used), span=f.span)
-        if flows:
-            # the join is taken only when second is `-` or `+`
-            signs = [t for t in p['tests'] if isinstance(t, tuple) and len(t) == 2 and isinstance(t[0], str) and 'PartialEq::eq(' in t[0] and 'PartialToken::' in t[0]]
-            held = [t[0].split('PartialToken::')[-1].rstrip(')') for t in signs if t[1] in ('$otherwise', '1')]
-            held += [str(vn) for sl, vn in p['matched'] if sl == 1]  # `matches!(second, Minus | Plus)` form
-            if not held or not set(held) <= {'Minus', 'Plus'} or flows != {1, 2}:
-                ctx.violation('R6.5', inst, 'join-guard', 'the three-token join is taken without establishing that the middle token is `-` or `+` (tests that held: %s, slots %s)' % (held, sorted(flows)), span=f.span)
-            seen_join_signs |= set(held)
-        # ---- R6.3 (Literal paths)
-        if p['first'] == 'Literal' and em is not None and is_adt(em, 'option::Option', 'Some') and is_adt(em[4][0], 'token::Token'):
-            n63 += 1
-            kind = em[4][0][3]
-            att = classify_tests(p)
-            kinds = [k for k, _ in att]
-            # attempts come in the fixed order and stop at the first success
-            idx = [order.index(k) for k in kinds]
-            okorder = idx == sorted(idx) and len(set(idx)) == len(idx) and (not kinds or kinds[0] == 'int')
-            succ = [k for k, okk in att if okk]
-            first_succ = succ[0] if succ else None
-            expect = {'int': 'Int', 'float': 'Float', 'bool': 'Boolean', 'join': 'Float', None: 'Identifier'}[first_succ]
-            stops = not succ or att[-1][0] == first_succ
-            for t in p['tests']:
-                if not (isinstance(t, tuple) and len(t) == 2 and isinstance(t[0], str)) or t[0] == 'eq':
-                    continue
-                term = t[0]
-                allowed = (term.startswith('discriminant(') and any(k in term for k in ('strip_prefix(', 'from_hex_str(', 'from_str::<', 'parse::<', '::cloned(', '::get($tokens, ', 'map_err('))) \
-                    or ('PartialEq::eq(' in term and 'PartialToken::' in term)
-                if not allowed and '$tokens' in term:
-                    ctx.violation('R6.3', 'literal-path[extra-test]', 'extra-gate', 'the classification of a word depends on an additional test of its text (%s = %s) besides the int/float/bool/join attempts; such a gate changes which words are numbers (e.g. `.5e-3`)' % (term[:120], t[1]), span=f.span)
-            signs_held = [t for t in p['tests'] if isinstance(t, tuple) and len(t) == 2 and isinstance(t[0], str) and 'PartialEq::eq(' in t[0] and 'PartialToken::' in t[0] and t[1] in ('$otherwise', '1')]
-            signs_held += [vn for sl, vn in p['matched'] if sl == 1 and vn in ('Minus', 'Plus')]
-            if kind == 'Identifier' and signs_held and p['proven_len'] >= 3 and 'join' not in kinds:
-                ctx.violation('R6.3', 'literal-path[join-not-attempted]', 'join-gated', 'a word that is no int/float/bool, followed by `-`/`+` and a third token, is declared an identifier without attempting the scientific-notation join (an extra condition on the word gates the join; e.g. `.5e-3` would stop being a float)', span=f.span)
-            if not (okorder and kind == expect and stops):
-                ctx.violation('R6.3', 'literal-path[%s]' % kind, 'classification-order', 'a word is classified %s after attempts %s (order must be int, float, bool, join, identifier; the first success decides)' % (kind, att), span=f.span)
-    if bad65 == 0:
-        ctx.ok('R6.5', 'consume=match', 'all %d token-producing paths consume exactly what they matched' % sum(1 for p in paths if p['ret'] is None), span=f.span)
-    ctx.check(seen_join_signs == {'Minus', 'Plus'}, 'R6.5', 'join-signs', 'join-signs', 'the scientific-notation join is available after both `-` and `+` (found %s)' % sorted(seen_join_signs), span=f.span)
-    if n63:
-        ctx.ok('R6.3', 'classification', '%d literal paths follow the order int -> float -> bool -> join -> identifier' % n63, span=f.span)
-    ctx.floor('R6.3', 'literal_paths', n63, 5)
-    kinds_emitted = sorted({p['emitted'][4][0][3] for p in paths if p['first'] == 'Literal' and p['emitted'] is not None and is_adt(p['emitted'], 'option::Option', 'Some') and is_adt(p['emitted'][4][0], 'token::Token')})
-    ctx.check(kinds_emitted == ['Boolean', 'Float', 'Identifier', 'Int'], 'R6.3', 'literal-kinds', 'kinds', 'a word becomes Int, Float, Boolean or Identifier (found %s)' % kinds_emitted, span=f.span)
-    # identifier keeps its text, Int/Float/Boolean carry the parse result of the same text
-    for p in paths:
-        em = p['emitted']
-        if p['first'] == 'Literal' and em is not None and is_adt(em, 'option::Option', 'Some') and is_adt(em[4][0], 'token::Token', 'Identifier'):
-            pv = em[4][0][4][0]
-            s = fmt(pv)
-            word = ('proj', TOK, ('[0]', 'as Literal', '0'))
-            exact = pv == word or (pv[0] == 'app' and pv[2] == (word,) and pv[1].split('::')[-1] in ('to_string', 'clone', 'to_owned', 'into', 'from'))
-            if not exact:
-                ctx.violation('R6.3', 'identifier-text', 'text', 'an identifier token does not carry exactly the word\'s text: %s' % s, span=f.span)
-    ctx.sample(dict(rule='R6.5', table=sorted({(p['first'], tuple(p['matched']), p['cutoff']) for p in paths if p['ret'] is None and p['first'] != 'Literal'})[:14]))
-    return paths
+    return True
 
 
 def r64(ctx, prog):
